@@ -6,7 +6,52 @@ using namespace vpk;
 
 static Json::Value gen() {
   KillOpts o;
+  o.prof.glob_names = true;
   Json::Value sc = genKillScenario(o);
+  // a cgroup literally named "a*" targeted exactly ("a[*]") and walked recursively, next to a sibling that
+  // the name, read as a pattern, would match and that has a child of the same name with more memory
+  if (P(10)) {
+    WorldGen wg;
+    wg.prof = o.prof;
+    wg.next_pid = 5000;
+    Json::Value cgs(Json::arrayValue);
+    for (auto& c : sc["world"]["cgs"])
+      if (c["path"].asString().empty()) cgs.append(c);
+    auto add = [&](const std::string& path, bool leaf, int64_t mem) {
+      Cg c = wg.genCg(path, leaf);
+      if (!leaf) c.pids.clear();
+      if (mem) c.mem_current = mem;
+      c.oom_group = 0;
+      c.xattrs.clear();
+      cgs.append(c.toJson());
+    };
+    std::string child = oneOf(std::vector<std::string>{"x", "a", "w-x.slice"});
+    add("a*", false, int64_t(1) << 30);
+    add("a*/" + child, true, int64_t(1) << 24);
+    std::string sib = oneOf(std::vector<std::string>{"a.b", "ab", "a-1"});
+    add(sib, false, int64_t(1) << 31);
+    add(sib + "/" + child, true, int64_t(1) << 30);
+    sc["world"]["cgs"] = cgs;
+    for (auto& kv : wg.w.procs) {
+      if (kv.second.outcome == "dies") continue;
+      Json::Value pj(Json::objectValue);
+      pj["o"] = kv.second.outcome;
+      if (kv.second.n) pj["n"] = kv.second.n;
+      sc["world"]["procs"][std::to_string(kv.first)] = pj;
+    }
+    Json::Value& rs = sc["config"]["rulesets"][0];
+    for (auto& a : rs["actions"])
+      if (a["name"].asString().compare(0, 8, "kill_by_") == 0) {
+        a["name"] = "kill_by_memory_size_or_growth";
+        Json::Value args(Json::objectValue);
+        args["cgroup"] = "a[*]";
+        args["recursive"] = "true";
+        args["post_action_delay"] = "0";
+        a["args"] = args;
+      }
+    for (auto& t : sc["ticks"]) t["ops"] = Json::Value(Json::arrayValue);
+    sc["meta"]["glob_named_target"] = true;
+  }
   // a prekill hook that takes several ticks: the cgroup oomd selected may be removed and another one
   // created under its path meanwhile - that one was never selected
   if (P(25)) {
